@@ -396,6 +396,16 @@ def _run(prop, tier, seed, backends, limited):
                 sc = sc + [pre + tuple(("wsquery", fs, "feed" if n % 3 else "other") for n, fs in enumerate(sample[b:b + 120]))
                            for b in range(0, len(sample), 120)]
         if prop == "C12" and pal == palettes[0]:
+            # the limit written as something other than a JSON integer (4.0, 1e1, "4", 1e9, "1000000000"): whatever the relay
+            # makes of the spelling, no more than max_limit events may come back (judged as the integer the spelling denotes)
+            spell = []
+            for f in ({"kinds": [1]}, {"authors": ["A"]}, {"tags": {"t": ["a"]}}, {"kinds": [1, 7], "since": 9}):
+                for conc_lim, abs_lim in ((4.0, 4), (1e1, 10), ("4", 4), (1e9, 1000000000), ("1000000000", 1000000000), (2.0, 2), ("2", 2), (True, 1)):
+                    conc = uni.conc_filter(f)
+                    conc["limit"] = conc_lim
+                    spell.append(([conc], [dict(f, limit=abs_lim)]))
+            pre = tuple(x for s_ in histories[0] for x in (("submit", s_), ("drain",)))
+            sc = sc + [pre + tuple(("rawquery", c, a) for c, a in spell)]
             # answers during which the engine fails transiently at the k-th fetch of rows: cut short perhaps, never longer than
             # the limit and never an event twice
             rf = random.Random(seed + 11)
